@@ -35,6 +35,8 @@ pub struct DecResult {
     pub out: Vec<u8>,
     /// bit position just after the final block's end-of-block (valid streams)
     pub end_bit: usize,
+    /// output length at `end_bit` (output of complete blocks only)
+    pub complete_out: usize,
     pub max_distance: usize,
     /// largest (distance - bytes of stream output available), i.e. reach into the dictionary
     pub max_reach_before_start: usize,
@@ -225,6 +227,7 @@ pub fn inflate_raw(data: &[u8], start_bit: usize, opts: &DecOpts) -> DecResult {
         verdict: Verdict::Valid,
         out: Vec::new(),
         end_bit: start_bit,
+        complete_out: 0,
         max_distance: 0,
         max_reach_before_start: 0,
         blocks: Vec::new(),
@@ -462,6 +465,7 @@ pub fn inflate_raw(data: &[u8], start_bit: usize, opts: &DecOpts) -> DecResult {
         bi.out_end = res.out.len();
         res.blocks.push(bi);
         res.end_bit = b.pos;
+        res.complete_out = res.out.len();
         if last {
             res.verdict = Verdict::Valid;
             return res;
